@@ -11,8 +11,27 @@
 //!   RESP  = family::response_sexp (data, sorted errors, resolver invocation log)
 //!   X     = (x (cc PUBLIC MAXAGE) (exts N) (hdrs N) (kinds K…))  cache policy, size of the
 //!           response's extensions map, number of http headers, sorted error-message classes
-//!   EV    = (e HOOK IDX) / (x HOOK IDX) for request, prepare, parse, validation, execute;
+//!   EV    = (e HOOK IDX) / (x HOOK IDX) for request, subscribe, prepare, validation, execute;
+//!           (e parse IDX "query text handed to the hook") / (x parse IDX);
 //!           (e resolve IDX (PATH…) PARENT RETURN) / (x resolve IDX (PATH…))
+//!
+//! Stream `forms` — the REQUEST FORM as a dimension (static family + subscription root `Sub`, and the
+//! object-only part of the family assembled as a `dynamic::Schema`):
+//! Case:   (fcase BACKEND MODE NEXT API WDATA SCHEMA RW (reqs REQ…))
+//!   BACKEND static | dynamic;  API execute | batch | stream (batch: static only);
+//!   WDATA   req | schema  (the world is attached to the request / to the schema);
+//!   REQ     (req FORM INTRO SRC PRE OPNAME VARS WORLD)
+//!     FORM  plain | inspected (`Request::parsed_query()` called before executing, result kept) |
+//!           preparsed (`Request::set_parsed_query` with the document parsed from PRE's text)
+//!     INTRO intro | nointro (`Request::disable_introspection`)
+//!     SRC   (src KIND DOC TEXT) = `request.query` (KIND as in the main stream);  PRE = none | SRC
+//!   RW      none | (rw K ACT…): extension K rewrites the request in its `prepare_request` hook before
+//!           delegating: (text SRC) replaces `request.query`, (parsed SRC) injects a parsed document,
+//!           (flipvars) negates every Boolean variable, (op NAME|none) sets the operation name.
+//!           The extension-free reference run applies the same rewriting by hand.
+//! Output: (out (pq ok|err|none …) (plain (r RESP X)…) (ext (r RESP X)…) (trace EV…))
+//!   pq = what `parsed_query()` returned per request; one `(r …)` per response (batch: per request,
+//!   stream: per item of the stream)
 
 use std::sync::{Arc, Mutex};
 
@@ -20,11 +39,13 @@ use std::sync::{Arc, Mutex};
 mod family;
 
 use agvh::*;
+use async_graphql::dynamic::{self as dy, FieldFuture, FieldValue, ResolverContext};
 use async_graphql::{
-    Request, Response, ServerError, ServerResult, ValidationMode, ValidationResult, Value as AValue, Variables,
+    BatchRequest, BatchResponse, Context, Request, Response, ServerError, ServerResult, ValidationMode, ValidationResult,
+    Value as AValue, Variables,
     extensions::{
         Extension, ExtensionContext, ExtensionFactory, NextExecute, NextParseQuery, NextPrepareRequest, NextRequest,
-        NextResolve, NextValidation, ResolveInfo,
+        NextResolve, NextSubscribe, NextValidation, ResolveInfo,
     },
     parser::types::ExecutableDocument,
 };
@@ -34,17 +55,46 @@ use family::*;
 
 type Trace = Arc<Mutex<Vec<Sexp>>>;
 
+/// what a rewriting `prepare_request` hook does to the request
+#[derive(Clone, Debug)]
+enum RwAct {
+    Text(String),
+    Parsed(String),
+    FlipVars,
+    Op(Option<String>),
+}
+
+fn apply_rw(acts: &[RwAct], mut req: Request) -> Request {
+    for a in acts {
+        match a {
+            RwAct::Text(t) => req.query = t.clone(),
+            RwAct::Parsed(t) => req.set_parsed_query(async_graphql::parser::parse_query(t).expect("injected document parses")),
+            RwAct::FlipVars => {
+                for (_, v) in req.variables.iter_mut() {
+                    if let AValue::Boolean(b) = v {
+                        *b = !*b;
+                    }
+                }
+            }
+            RwAct::Op(n) => req.operation_name = n.clone(),
+        }
+    }
+    req
+}
+
 struct RecFactory {
     idx: usize,
     trace: Trace,
+    rw: Option<Arc<Vec<RwAct>>>,
 }
 struct Rec {
     idx: usize,
     trace: Trace,
+    rw: Option<Arc<Vec<RwAct>>>,
 }
 impl ExtensionFactory for RecFactory {
     fn create(&self) -> Arc<dyn Extension> {
-        Arc::new(Rec { idx: self.idx, trace: self.trace.clone() })
+        Arc::new(Rec { idx: self.idx, trace: self.trace.clone(), rw: self.rw.clone() })
     }
 }
 impl Rec {
@@ -77,14 +127,29 @@ impl Extension for Rec {
         self.ev(false, "request", vec![]);
         r
     }
+    fn subscribe<'s>(
+        &self,
+        ctx: &ExtensionContext<'_>,
+        stream: futures_util::stream::BoxStream<'s, Response>,
+        next: NextSubscribe<'_>,
+    ) -> futures_util::stream::BoxStream<'s, Response> {
+        self.ev(true, "subscribe", vec![]);
+        let r = next.run(ctx, stream);
+        self.ev(false, "subscribe", vec![]);
+        r
+    }
     async fn prepare_request(&self, ctx: &ExtensionContext<'_>, request: Request, next: NextPrepareRequest<'_>) -> ServerResult<Request> {
         self.ev(true, "prepare", vec![]);
+        let request = match &self.rw {
+            Some(acts) => apply_rw(acts, request),
+            None => request,
+        };
         let r = next.run(ctx, request).await;
         self.ev(false, "prepare", vec![]);
         r
     }
     async fn parse_query(&self, ctx: &ExtensionContext<'_>, query: &str, variables: &Variables, next: NextParseQuery<'_>) -> ServerResult<ExecutableDocument> {
-        self.ev(true, "parse", vec![]);
+        self.ev(true, "parse", vec![st(query.to_string())]);
         let r = next.run(ctx, query, variables).await;
         self.ev(false, "parse", vec![]);
         r
@@ -145,7 +210,115 @@ fn plain_field(name: &str, sels: Vec<SelN>) -> SelN {
     SelN::Field { alias: None, name: name.into(), args: vec![], dirs: vec![], sels, pos: (0, 0) }
 }
 
-fn gen_case(rng: &mut Rng, _i: usize, _o: &Opts, dist: &mut Dist) -> Sexp {
+fn roll_kind(rng: &mut Rng) -> &'static str {
+    match rng.below(20) {
+        0..=8 => "valid",
+        9..=12 => "unknown-field",
+        13..=14 => "abstract-field",
+        15..=16 => "no-subsel",
+        17 => "unknown-directive",
+        18 => "syntax",
+        _ => "unknown-op",
+    }
+}
+
+/// makes the valid document `doc` invalid in the way `kind` names (when that applies to it);
+/// returns the kind that was realised and the operation name to send
+fn mutate_doc(rng: &mut Rng, dist: &mut Dist, doc: &mut DocN, op_ty: &str, kind: &'static str) -> (&'static str, Option<String>) {
+    let mut op_name = doc.ops[0].name.clone();
+    let kind = match kind {
+        "unknown-field" => {
+            let with_dir = rng.chance(1, 4);
+            let f = SelN::Field {
+                alias: if rng.chance(1, 4) { Some("al".into()) } else { None },
+                name: "nope".into(),
+                args: vec![],
+                dirs: if with_dir && rng.chance(1, 2) {
+                    // @skip/@include are stripped from the fields that stay
+                    dist.hit("unknown_field_with_include");
+                    vec![DirN { name: "include".into(), args: vec![("if".into(), DV::Const(GV::Bool(true)))] }]
+                } else if with_dir {
+                    // any other directive makes the field take the extension branch even without extensions
+                    dist.hit("unknown_field_with_unknown_directive");
+                    vec![DirN { name: "foo".into(), args: vec![] }]
+                } else {
+                    vec![]
+                },
+                sels: vec![],
+                pos: (0, 0),
+            };
+            if !doc.frags.is_empty() && rng.chance(1, 4) {
+                let k = rng.below(doc.frags.len());
+                insert_somewhere(rng, &mut doc.frags[k].sels, f);
+            } else {
+                insert_somewhere(rng, &mut doc.ops[0].sels, f);
+            }
+            kind
+        }
+        "abstract-field" if op_ty == "query" => {
+            // a field that exists on the runtime objects but not on the abstract static type
+            let f = match rng.below(4) {
+                0 => plain_field("i", vec![plain_field("num", vec![])]),
+                1 => plain_field("is", vec![plain_field("num", vec![]), plain_field("id", vec![])]),
+                2 => plain_field("jay", vec![plain_field("name", vec![])]),
+                _ => plain_field("un", vec![plain_field("id", vec![])]),
+            };
+            let at = rng.below(doc.ops[0].sels.len() + 1);
+            doc.ops[0].sels.insert(at, f);
+            kind
+        }
+        "no-subsel" => {
+            let f = if op_ty == "query" { plain_field(*rng.pick(&["a", "b", "c", "aReq"]), vec![]) } else { plain_field("a", vec![]) };
+            let f = match f {
+                SelN::Field { name, args, dirs, sels, pos, .. } => SelN::Field { alias: Some("bare".into()), name, args, dirs, sels, pos },
+                x => x,
+            };
+            let at = rng.below(doc.ops[0].sels.len() + 1);
+            doc.ops[0].sels.insert(at, f);
+            kind
+        }
+        "unknown-op" => {
+            op_name = Some("Nope".into());
+            kind
+        }
+        "unknown-directive" => {
+            let name = if op_ty == "query" { *rng.pick(&["num", "tag", "strs", "uns"]) } else { "num" };
+            let sels = if name == "uns" { vec![plain_field("__typename", vec![])] } else { vec![] };
+            let f = SelN::Field {
+                alias: Some("dir".into()),
+                name: name.into(),
+                args: vec![],
+                dirs: vec![DirN { name: "foo".into(), args: vec![] }],
+                sels,
+                pos: (0, 0),
+            };
+            insert_somewhere_root(rng, &mut doc.ops[0].sels, f);
+            kind
+        }
+        "syntax" => kind,
+        _ => "valid",
+    };
+    (kind, op_name)
+}
+
+/// the text that is sent: the printed document, garbled when `kind` is `syntax`
+fn print_src(rng: &mut Rng, doc: &mut DocN, kind: &str) -> String {
+    let mut text = print_doc(doc);
+    if kind == "syntax" {
+        text = match rng.below(4) {
+            0 => format!("{}", text.trim_end().strip_suffix('}').unwrap()),
+            1 => format!("@ {text}"),
+            2 => text.replacen("{ ", "{ : ", 1),
+            _ => format!("{text} }}"),
+        };
+    }
+    text
+}
+
+fn gen_case(rng: &mut Rng, i: usize, o: &Opts, dist: &mut Dist) -> Sexp {
+    if o.stream == "forms" {
+        return gen_fcase(rng, i, o, dist);
+    }
     thread_local! {
         static SD: SchemaD = SchemaD::from_sdl(&build_schema().sdl());
     }
@@ -153,97 +326,9 @@ fn gen_case(rng: &mut Rng, _i: usize, _o: &Opts, dist: &mut Dist) -> Sexp {
         let op_ty = if rng.chance(1, 4) { "mutation" } else { "query" };
         let fail_16 = *rng.pick(&[0, 1, 3]);
         let (mut doc, vars) = gen_request(sd, rng, dist, op_ty, true);
-        let kind = match rng.below(20) {
-            0..=8 => "valid",
-            9..=12 => "unknown-field",
-            13..=14 => "abstract-field",
-            15..=16 => "no-subsel",
-            17 => "unknown-directive",
-            18 => "syntax",
-            _ => "unknown-op",
-        };
-        let mut op_name = doc.ops[0].name.clone();
-        let kind = match kind {
-            "unknown-field" => {
-                let with_dir = rng.chance(1, 4);
-                let f = SelN::Field {
-                    alias: if rng.chance(1, 4) { Some("al".into()) } else { None },
-                    name: "nope".into(),
-                    args: vec![],
-                    dirs: if with_dir && rng.chance(1, 2) {
-                        // @skip/@include are stripped from the fields that stay
-                        dist.hit("unknown_field_with_include");
-                        vec![DirN { name: "include".into(), args: vec![("if".into(), DV::Const(GV::Bool(true)))] }]
-                    } else if with_dir {
-                        // any other directive makes the field take the extension branch even without extensions
-                        dist.hit("unknown_field_with_unknown_directive");
-                        vec![DirN { name: "foo".into(), args: vec![] }]
-                    } else {
-                        vec![]
-                    },
-                    sels: vec![],
-                    pos: (0, 0),
-                };
-                if !doc.frags.is_empty() && rng.chance(1, 4) {
-                    let k = rng.below(doc.frags.len());
-                    insert_somewhere(rng, &mut doc.frags[k].sels, f);
-                } else {
-                    insert_somewhere(rng, &mut doc.ops[0].sels, f);
-                }
-                kind
-            }
-            "abstract-field" if op_ty == "query" => {
-                // a field that exists on the runtime objects but not on the abstract static type
-                let f = match rng.below(4) {
-                    0 => plain_field("i", vec![plain_field("num", vec![])]),
-                    1 => plain_field("is", vec![plain_field("num", vec![]), plain_field("id", vec![])]),
-                    2 => plain_field("jay", vec![plain_field("name", vec![])]),
-                    _ => plain_field("un", vec![plain_field("id", vec![])]),
-                };
-                let at = rng.below(doc.ops[0].sels.len() + 1);
-                doc.ops[0].sels.insert(at, f);
-                kind
-            }
-            "no-subsel" => {
-                let f = if op_ty == "query" { plain_field(*rng.pick(&["a", "b", "c", "aReq"]), vec![]) } else { plain_field("a", vec![]) };
-                let f = match f {
-                    SelN::Field { name, args, dirs, sels, pos, .. } => SelN::Field { alias: Some("bare".into()), name, args, dirs, sels, pos },
-                    x => x,
-                };
-                let at = rng.below(doc.ops[0].sels.len() + 1);
-                doc.ops[0].sels.insert(at, f);
-                kind
-            }
-            "unknown-op" => {
-                op_name = Some("Nope".into());
-                kind
-            }
-            "unknown-directive" => {
-                let name = if op_ty == "query" { *rng.pick(&["num", "tag", "strs", "uns"]) } else { "num" };
-                let sels = if name == "uns" { vec![plain_field("__typename", vec![])] } else { vec![] };
-                let f = SelN::Field {
-                    alias: Some("dir".into()),
-                    name: name.into(),
-                    args: vec![],
-                    dirs: vec![DirN { name: "foo".into(), args: vec![] }],
-                    sels,
-                    pos: (0, 0),
-                };
-                insert_somewhere_root(rng, &mut doc.ops[0].sels, f);
-                kind
-            }
-            "syntax" => kind,
-            _ => "valid",
-        };
-        let mut text = print_doc(&mut doc);
-        if kind == "syntax" {
-            text = match rng.below(4) {
-                0 => format!("{}", text.trim_end().strip_suffix('}').unwrap()),
-                1 => format!("@ {text}"),
-                2 => text.replacen("{ ", "{ : ", 1),
-                _ => format!("{text} }}"),
-            };
-        }
+        let kind = roll_kind(rng);
+        let (kind, op_name) = mutate_doc(rng, dist, &mut doc, op_ty, kind);
+        let text = print_src(rng, &mut doc, kind);
         dist.hit(&format!("kind_{kind}"));
         let mode = if rng.chance(1, 2) { "strict" } else { "fast" };
         let n_ext = rng.below(4);
@@ -312,7 +397,7 @@ fn run_once(a: &[Sexp], n_ext: usize, trace: &Trace) -> (Sexp, Sexp) {
     let text = a[8].as_str().unwrap();
     let mut b = async_graphql::Schema::build(Query, Mutation, async_graphql::EmptySubscription).validation_mode(mode);
     for idx in 0..n_ext {
-        b = b.extension(RecFactory { idx, trace: trace.clone() });
+        b = b.extension(RecFactory { idx, trace: trace.clone(), rw: None });
     }
     let schema = b.finish();
     let mut req = Request::new(text).data(w.clone());
@@ -331,7 +416,596 @@ fn run_once(a: &[Sexp], n_ext: usize, trace: &Trace) -> (Sexp, Sexp) {
     (response_sexp(&resp, &w), extra_sexp(&resp))
 }
 
+// ------------------------------------------------------------------ stream `forms`: schemas
+
+/// subscription root added to the family: the world holds at `(0, field)` the LIST of the values
+/// the field's stream yields; every event logs one resolver invocation before it is resolved
+pub struct Sub;
+
+fn sub_events<T: FromRVal + Send + 'static>(ctx: &Context<'_>) -> impl futures_util::Stream<Item = T> + Send + 'static {
+    use futures_util::StreamExt;
+    let w = world(ctx).clone();
+    let f = ctx.field().name().to_string();
+    let key = ctx.field().alias().unwrap_or(ctx.field().name()).to_string();
+    let evs: Vec<T> = w.index.get(&(0, f.clone())).and_then(|rv| Vec::<T>::conv(rv).ok()).unwrap_or_default();
+    futures_util::stream::iter(evs).map(move |e| {
+        w.log.lock().unwrap().push((0, f.clone(), key.clone()));
+        e
+    })
+}
+
+#[async_graphql::Subscription]
+impl Sub {
+    async fn ticks(&self, ctx: &Context<'_>) -> impl futures_util::Stream<Item = i64> {
+        sub_events::<i64>(ctx)
+    }
+    async fn maybe_tick(&self, ctx: &Context<'_>) -> impl futures_util::Stream<Item = Option<i64>> {
+        sub_events::<Option<i64>>(ctx)
+    }
+    async fn objs(&self, ctx: &Context<'_>) -> impl futures_util::Stream<Item = A> {
+        sub_events::<A>(ctx)
+    }
+    async fn rows(&self, ctx: &Context<'_>) -> impl futures_util::Stream<Item = Vec<String>> {
+        sub_events::<Vec<String>>(ctx)
+    }
+}
+
+type StaticSchema = async_graphql::Schema<Query, Mutation, Sub>;
+
+/// the family without its interfaces and unions (and the fields that return them): the part on
+/// which the static and the dynamic executor report the same `ResolveInfo`
+fn restrict(sd: &SchemaD) -> SchemaD {
+    let abs: Vec<String> = sd.types.iter().filter(|t| t.kind == "interface" || t.kind == "union").map(|t| t.name.clone()).collect();
+    let types = sd
+        .types
+        .iter()
+        .filter(|t| !abs.contains(&t.name))
+        .map(|t| {
+            let mut t = t.clone();
+            t.fields.retain(|f| !abs.contains(&f.ty.base().to_string()));
+            t.implements.clear();
+            t
+        })
+        .collect();
+    SchemaD { query: sd.query.clone(), mutation: sd.mutation.clone(), subscription: sd.subscription.clone(), types }
+}
+
+/// the description the world generator works with: a subscription field holds the list of its events
+fn with_event_lists(sd: &SchemaD) -> SchemaD {
+    let mut sd = sd.clone();
+    if let Some(sn) = sd.subscription.clone() {
+        for t in sd.types.iter_mut().filter(|t| t.name == sn) {
+            for f in t.fields.iter_mut() {
+                f.ty = TRef::NonNull(Box::new(TRef::List(Box::new(f.ty.clone()))));
+            }
+        }
+    }
+    sd
+}
+
+fn strs(s: &Sexp) -> Vec<String> {
+    s.as_list().unwrap().iter().map(|x| x.as_str().unwrap().to_string()).collect()
+}
+
+fn schema_from_sexp(s: &Sexp) -> SchemaD {
+    let a = s.args();
+    let opt = |x: &Sexp| x.as_str().map(|v| v.to_string());
+    let types = a[3]
+        .as_list()
+        .unwrap()
+        .iter()
+        .map(|t| {
+            let t = t.args();
+            TypeD {
+                name: t[0].as_str().unwrap().to_string(),
+                kind: t[1].as_atom().unwrap().to_string(),
+                fields: t[2]
+                    .as_list()
+                    .unwrap()
+                    .iter()
+                    .map(|f| {
+                        let f = f.args();
+                        FieldD {
+                            name: f[0].as_str().unwrap().to_string(),
+                            ty: TRef::from_sexp(&f[1]).unwrap(),
+                            args: f[2]
+                                .as_list()
+                                .unwrap()
+                                .iter()
+                                .map(|x| {
+                                    let x = x.args();
+                                    ArgD {
+                                        name: x[0].as_str().unwrap().to_string(),
+                                        ty: TRef::from_sexp(&x[1]).unwrap(),
+                                        default: if x[2].tag() == Some("some") { GV::from_sexp(&x[2].args()[0]) } else { None },
+                                    }
+                                })
+                                .collect(),
+                        }
+                    })
+                    .collect(),
+                implements: strs(&t[3]),
+                members: strs(&t[4]),
+                values: strs(&t[5]),
+            }
+        })
+        .collect();
+    SchemaD { query: a[0].as_str().unwrap().to_string(), mutation: opt(&a[1]), subscription: opt(&a[2]), types }
+}
+
+fn dref(t: &TRef) -> dy::TypeRef {
+    match t {
+        TRef::Named(n) => dy::TypeRef::Named(n.clone().into()),
+        TRef::List(i) => dy::TypeRef::List(Box::new(dref(i))),
+        TRef::NonNull(i) => dy::TypeRef::NonNull(Box::new(dref(i))),
+    }
+}
+
+fn conv_item(rv: &RVal) -> async_graphql::Result<FieldValue<'static>> {
+    Ok(conv(rv)?.unwrap_or(FieldValue::NULL))
+}
+
+fn conv(rv: &RVal) -> async_graphql::Result<Option<FieldValue<'static>>> {
+    Ok(match rv {
+        RVal::Null => None,
+        RVal::Leaf(g) => Some(FieldValue::value(g.to_avalue())),
+        RVal::Obj(_, id) => Some(FieldValue::owned_any(*id)),
+        RVal::List(xs) => Some(FieldValue::list(xs.iter().map(conv_item).collect::<async_graphql::Result<Vec<_>>>()?)),
+        RVal::Fail(m) => return Err(m.clone().into()),
+        RVal::Arg(_) => return Err("nested arg".into()),
+    })
+}
+
+/// the description assembled as a real `dynamic::Schema` with data-driven resolvers (as in c02.rs;
+/// object types only) and a subscription root whose fields stream the events held by the world
+fn build_dynamic(sd: &SchemaD) -> dy::SchemaBuilder {
+    let mut b = dy::Schema::build(&sd.query, sd.mutation.as_deref(), sd.subscription.as_deref());
+    for t in &sd.types {
+        match t.kind.as_str() {
+            "object" if Some(&t.name) == sd.subscription.as_ref() => {
+                let mut sub = dy::Subscription::new(t.name.clone());
+                for f in &t.fields {
+                    let fname = f.name.clone();
+                    sub = sub.field(dy::SubscriptionField::new(f.name.clone(), dref(&f.ty), move |ctx: ResolverContext<'_>| {
+                        let fname = fname.clone();
+                        dy::SubscriptionFieldFuture::new(async move {
+                            use futures_util::StreamExt;
+                            let w = ctx.ctx.data_unchecked::<Arc<World>>().clone();
+                            let key = ctx.ctx.field().alias().unwrap_or(ctx.ctx.field().name()).to_string();
+                            let evs: Vec<RVal> = match w.index.get(&(0, fname.clone())) {
+                                Some(RVal::List(xs)) => xs.clone(),
+                                _ => vec![],
+                            };
+                            Ok(futures_util::stream::iter(evs).map(move |rv| {
+                                w.log.lock().unwrap().push((0, fname.clone(), key.clone()));
+                                conv_item(&rv)
+                            }))
+                        })
+                    }));
+                }
+                b = b.register(sub);
+            }
+            "object" => {
+                let mut o = dy::Object::new(t.name.clone());
+                for f in &t.fields {
+                    let fname = f.name.clone();
+                    let mut fld = dy::Field::new(f.name.clone(), dref(&f.ty), move |ctx: ResolverContext<'_>| {
+                        let fname = fname.clone();
+                        FieldFuture::new(async move {
+                            let w = ctx.ctx.data_unchecked::<Arc<World>>().clone();
+                            let id = ctx.parent_value.downcast_ref::<u32>().copied().unwrap_or(0);
+                            match w.get(ctx.ctx, id, &fname) {
+                                RVal::Arg(a) => Ok(ctx.args.get(&a).map(|v| FieldValue::value(v.as_value().clone()))),
+                                rv => conv(&rv),
+                            }
+                        })
+                    });
+                    for a in &f.args {
+                        let mut iv = dy::InputValue::new(a.name.clone(), dref(&a.ty));
+                        if let Some(d) = &a.default {
+                            iv = iv.default_value(d.to_avalue());
+                        }
+                        fld = fld.argument(iv);
+                    }
+                    o = o.field(fld);
+                }
+                b = b.register(o);
+            }
+            "enum" => {
+                let mut e = dy::Enum::new(t.name.clone());
+                for v in &t.values {
+                    e = e.item(v.clone());
+                }
+                b = b.register(e);
+            }
+            _ => {}
+        }
+    }
+    b
+}
+
+// ------------------------------------------------------------------ stream `forms`: generator
+
+struct Src {
+    kind: &'static str,
+    doc: DocN,
+    vars: Vec<(String, GV)>,
+    op_name: Option<String>,
+    text: String,
+}
+
+impl Src {
+    fn to_sexp(&self) -> Sexp {
+        node("src", vec![atom(self.kind), self.doc.to_sexp(), st(self.text.clone())])
+    }
+}
+
+/// a request source over `sd`; `small`: an alternative document (no variables, few selections)
+fn gen_src(rng: &mut Rng, dist: &mut Dist, sd: &SchemaD, op_ty: &str, small: bool, allow: &dyn Fn(&str) -> bool) -> Src {
+    let (mut doc, vars) = if small { gen_request_b(sd, rng, dist, op_ty, false, 4, 2) } else { gen_request(sd, rng, dist, op_ty, true) };
+    let kind = roll_kind(rng);
+    let kind = if allow(kind) { kind } else { "valid" };
+    let (kind, op_name) = mutate_doc(rng, dist, &mut doc, op_ty, kind);
+    let text = print_src(rng, &mut doc, kind);
+    Src { kind, doc, vars, op_name, text }
+}
+
+/// `subscription { f { … } }` on one field of the subscription root
+fn gen_sub_src(rng: &mut Rng, dist: &mut Dist, sd: &SchemaD) -> Src {
+    let st_name = sd.subscription.clone().unwrap();
+    let t = sd.find(&st_name).unwrap().clone();
+    let f = rng.pick(&t.fields).clone();
+    let (sels, frags) = if sd.is_composite(f.ty.base()) {
+        let mut g = DocGen { sd, rng: &mut *rng, dist: &mut *dist, frags: vec![], vars: vec![], max_frags: 2, directives: false, budget: 6 };
+        let mut ss = vec![];
+        while ss.is_empty() {
+            g.budget = 6;
+            ss = g.selection_set(f.ty.base(), 2);
+        }
+        (ss, std::mem::take(&mut g.frags))
+    } else {
+        (vec![], vec![])
+    };
+    let alias = if rng.chance(1, 4) { Some("ev".to_string()) } else { None };
+    let name = if rng.chance(1, 2) { Some("Op".to_string()) } else { None };
+    let root = SelN::Field { alias, name: f.name.clone(), args: vec![], dirs: vec![], sels, pos: (0, 0) };
+    let mut doc = DocN { ops: vec![OpN { ty: "subscription".into(), name, vars: vec![], sels: vec![root] }], frags };
+    let kind = match rng.below(10) {
+        0 => "syntax",
+        1 => "unknown-op",
+        _ => "valid",
+    };
+    let mut op_name = doc.ops[0].name.clone();
+    if kind == "unknown-op" {
+        op_name = Some("Nope".into());
+    }
+    let text = print_src(rng, &mut doc, kind);
+    dist.hit(&format!("sub_field_{}", f.name));
+    Src { kind, doc, vars: vec![], op_name, text }
+}
+
+fn gen_fcase(rng: &mut Rng, _i: usize, _o: &Opts, dist: &mut Dist) -> Sexp {
+    thread_local! {
+        static SDS: (SchemaD, SchemaD) = {
+            let full = SchemaD::from_sdl(&async_graphql::Schema::build(Query, Mutation, Sub).finish().sdl());
+            let small = restrict(&full);
+            (full, small)
+        };
+    }
+    SDS.with(|(full, small)| {
+        let dynamic = rng.chance(2, 5);
+        let sd = if dynamic { small } else { full };
+        let backend = if dynamic { "dynamic" } else { "static" };
+        let mode = if rng.chance(1, 2) { "strict" } else { "fast" };
+        let n_ext = rng.below(4);
+        let api = match rng.below(10) {
+            0..=3 => "execute",
+            4..=6 if !dynamic => "batch",
+            4..=6 => "execute",
+            _ => "stream",
+        };
+        // the dynamic executor is not this model's: keep to documents that never reach a place where
+        // the two executors differ (unknown fields under Fast, interfaces/unions, failing resolvers)
+        let allow = move |k: &str| {
+            if dynamic {
+                matches!(k, "valid" | "syntax" | "unknown-op") || (mode == "strict" && matches!(k, "unknown-field" | "no-subsel"))
+            } else {
+                true
+            }
+        };
+        let n_req = if api == "batch" { 1 + rng.below(3) } else { 1 };
+        let wdata = if n_req == 1 && rng.chance(1, 4) { "schema" } else { "req" };
+        let fail_16 = if dynamic { 0 } else { *rng.pick(&[0, 0, 1, 3]) };
+        let sd_w = with_event_lists(sd);
+        let mut reqs = vec![];
+        for _ in 0..n_req {
+            let sub = api == "stream" && rng.chance(3, 5);
+            let op_ty = if sub {
+                "subscription"
+            } else if rng.chance(1, 4) {
+                "mutation"
+            } else {
+                "query"
+            };
+            let main = if sub { gen_sub_src(rng, dist, sd) } else { gen_src(rng, dist, sd, op_ty, false, &allow) };
+            dist.hit(&format!("kind_{}", main.kind));
+            dist.hit(&format!("op_{op_ty}"));
+            // the request form
+            let form = match rng.below(8) {
+                0 | 1 => "plain",
+                2 | 3 => "inspected",
+                _ if main.kind == "syntax" => "inspected",
+                4 | 5 => "preparsed-same",
+                _ => "preparsed-other-text",
+            };
+            dist.hit(&format!("form_{form}"));
+            let (form_atom, text_src, pre): (&str, Sexp, Sexp) = match form {
+                "plain" => ("plain", main.to_sexp(), atom("none")),
+                "inspected" => ("inspected", main.to_sexp(), atom("none")),
+                "preparsed-same" => ("preparsed", main.to_sexp(), main.to_sexp()),
+                _ => {
+                    // `request.query` is something else: empty, garbage, or another document
+                    let other = match rng.below(3) {
+                        0 => Src { kind: "syntax", doc: DocN { ops: vec![], frags: vec![] }, vars: vec![], op_name: None, text: String::new() },
+                        1 => Src { kind: "syntax", doc: DocN { ops: vec![], frags: vec![] }, vars: vec![], op_name: None, text: "persisted:abc".into() },
+                        _ => gen_src(rng, dist, sd, if sub { "query" } else { op_ty }, true, &allow),
+                    };
+                    ("preparsed", other.to_sexp(), main.to_sexp())
+                }
+            };
+            // a prepare hook may swap in a document on another root: the world answers for all roots
+            // (they share the identity 0; equal field names have equal types in the family)
+            let wg = WorldGen { sd: &sd_w, fail_16, nonfinite: false };
+            let mut es = wg.generate(rng, &sd.query, dist).entries;
+            for root in [sd.mutation.clone().unwrap(), sd.subscription.clone().unwrap()] {
+                for (k, v) in wg.generate(rng, &root, dist).entries {
+                    if k.0 == 0 && !es.iter().any(|(k2, _)| *k2 == k) {
+                        es.push((k, v));
+                    }
+                }
+            }
+            let sub_fields: Vec<String> = sd.find(sd.subscription.as_ref().unwrap()).unwrap().fields.iter().map(|f| f.name.clone()).collect();
+            fn no_nulls_in_lists(v: &RVal) -> RVal {
+                match v {
+                    RVal::List(xs) => RVal::List(xs.iter().filter(|x| !matches!(x, RVal::Null)).map(no_nulls_in_lists).collect()),
+                    x => x.clone(),
+                }
+            }
+            let es: Vec<_> = es
+                .into_iter()
+                .map(|(k, v)| {
+                    // the stream itself never fails: its events do (or not)
+                    let v = if k.0 == 0 && sub_fields.contains(&k.1) && !matches!(v, RVal::List(_)) { RVal::List(vec![]) } else { v };
+                    // a null ITEM is read differently by the dynamic executor (C02/C03's subject)
+                    let v = if dynamic { no_nulls_in_lists(&v) } else { v };
+                    (k, v)
+                })
+                .collect();
+            let w = World::new(es);
+            let intro = if rng.chance(1, 4) { "nointro" } else { "intro" };
+            dist.hit(&format!("flag_{intro}"));
+            reqs.push(node(
+                "req",
+                vec![
+                    atom(form_atom),
+                    atom(intro),
+                    text_src,
+                    pre,
+                    main.op_name.clone().map(st).unwrap_or(atom("none")),
+                    vars_sexp(&main.vars),
+                    w.to_sexp(),
+                ],
+            ));
+        }
+        // a rewriting prepare hook in one of the stacked extensions
+        let rw = if n_ext > 0 && rng.chance(2, 5) {
+            let k = rng.below(n_ext);
+            let mut acts = vec![];
+            let op_ty = if rng.chance(1, 4) { "mutation" } else { "query" };
+            if rng.chance(1, 2) {
+                let s = gen_src(rng, dist, sd, op_ty, true, &allow);
+                dist.hit("rw_text");
+                acts.push(node("text", vec![s.to_sexp()]));
+            }
+            if rng.chance(1, 3) {
+                let s = gen_src(rng, dist, sd, op_ty, true, &|k: &str| k != "syntax" && allow(k));
+                dist.hit("rw_parsed");
+                acts.push(node("parsed", vec![s.to_sexp()]));
+            }
+            if rng.chance(1, 3) {
+                dist.hit("rw_flipvars");
+                acts.push(node("flipvars", vec![]));
+            }
+            if acts.is_empty() || rng.chance(1, 4) {
+                dist.hit("rw_op");
+                acts.push(node("op", vec![match rng.below(3) {
+                    0 => atom("none"),
+                    1 => st("Op"),
+                    _ => st("Nope"),
+                }]));
+            }
+            let mut v = vec![num(k)];
+            v.extend(acts);
+            node("rw", v)
+        } else {
+            atom("none")
+        };
+        dist.hit(&format!("backend_{backend}"));
+        dist.hit(&format!("api_{api}"));
+        dist.hit(&format!("mode_{mode}"));
+        dist.hit(&format!("stack_{n_ext}"));
+        dist.hit(&format!("wdata_{wdata}"));
+        node("fcase", vec![atom(backend), atom(mode), num(n_ext), atom(api), atom(wdata), sd.to_sexp(), rw, node("reqs", reqs)])
+    })
+}
+
+// ------------------------------------------------------------------ stream `forms`: runner
+
+fn rw_from_sexp(s: &Sexp) -> Option<(usize, Vec<RwAct>)> {
+    if s.tag() != Some("rw") {
+        return None;
+    }
+    let a = s.args();
+    let k = a[0].as_usize().unwrap();
+    let acts = a[1..]
+        .iter()
+        .map(|x| match x.tag().unwrap() {
+            "text" => RwAct::Text(x.args()[0].args()[2].as_str().unwrap().to_string()),
+            "parsed" => RwAct::Parsed(x.args()[0].args()[2].as_str().unwrap().to_string()),
+            "flipvars" => RwAct::FlipVars,
+            "op" => RwAct::Op(x.args()[0].as_str().map(|v| v.to_string())),
+            t => panic!("unknown rewrite action {t}"),
+        })
+        .collect();
+    Some((k, acts))
+}
+
+enum AnySchema {
+    Static(StaticSchema),
+    Dynamic(dy::Schema),
+}
+
+fn resp_sexp(resp: &Response, w: &World) -> Sexp {
+    let r = node("r", vec![response_sexp(resp, w), extra_sexp(resp)]);
+    w.log.lock().unwrap().clear();
+    r
+}
+
+/// one run of the case with `n_ext` extensions; returns (parsed_query() outcomes, responses)
+fn run_forms_once(a: &[Sexp], n_ext: usize, trace: &Trace) -> (Vec<Sexp>, Vec<Sexp>) {
+    use futures_util::StreamExt;
+    let dynamic = a[0].as_atom() == Some("dynamic");
+    let mode = if a[1].as_atom() == Some("fast") { ValidationMode::Fast } else { ValidationMode::Strict };
+    let api = a[3].as_atom().unwrap();
+    let schema_data = a[4].as_atom() == Some("schema");
+    let rw = rw_from_sexp(&a[6]);
+    let reqs = a[7].args();
+    // requests
+    let mut worlds: Vec<Arc<World>> = vec![];
+    let mut requests = vec![];
+    let mut pqs = vec![];
+    for r in reqs {
+        let r = r.args();
+        let w = Arc::new(World::from_sexp(&r[6]).expect("world"));
+        let text = r[2].args()[2].as_str().unwrap();
+        let mut req = Request::new(text);
+        if !schema_data {
+            req = req.data(w.clone());
+        }
+        if let Some(n) = r[4].as_str() {
+            req = req.operation_name(n);
+        }
+        let mut vs = Variables::default();
+        for (k, v) in &vars_from_sexp(&r[5]) {
+            vs.insert(async_graphql::Name::new(k), v.to_avalue());
+        }
+        req = req.variables(vs);
+        if r[1].as_atom() == Some("nointro") {
+            req = req.disable_introspection();
+        }
+        match r[0].as_atom().unwrap() {
+            "inspected" => pqs.push(atom(if req.parsed_query().is_ok() { "ok" } else { "err" })),
+            "preparsed" => {
+                let ptext = r[3].args()[2].as_str().unwrap();
+                req.set_parsed_query(async_graphql::parser::parse_query(ptext).expect("pre-parsed document parses"));
+                pqs.push(atom("none"));
+            }
+            _ => pqs.push(atom("none")),
+        }
+        // the reference run has no extension that could rewrite the request: do it by hand
+        if n_ext == 0 {
+            if let Some((_, acts)) = &rw {
+                req = apply_rw(acts, req);
+            }
+        }
+        worlds.push(w);
+        requests.push(req);
+    }
+    let ext = |idx: usize| RecFactory {
+        idx,
+        trace: trace.clone(),
+        rw: rw.as_ref().filter(|(k, _)| *k == idx).map(|(_, acts)| Arc::new(acts.clone())),
+    };
+    let schema = if dynamic {
+        let sd = schema_from_sexp(&a[5]);
+        let mut b = build_dynamic(&sd).validation_mode(mode);
+        if schema_data {
+            b = b.data(worlds[0].clone());
+        }
+        for idx in 0..n_ext {
+            b = b.extension(ext(idx));
+        }
+        AnySchema::Dynamic(b.finish().expect("dynamic schema"))
+    } else {
+        let mut b = async_graphql::Schema::build(Query, Mutation, Sub).validation_mode(mode);
+        if schema_data {
+            b = b.data(worlds[0].clone());
+        }
+        for idx in 0..n_ext {
+            b = b.extension(ext(idx));
+        }
+        AnySchema::Static(b.finish())
+    };
+    let mut out = vec![];
+    match api {
+        "execute" => {
+            let req = requests.pop().unwrap();
+            let resp = match &schema {
+                AnySchema::Static(s) => spin_on(s.execute(req)),
+                AnySchema::Dynamic(s) => spin_on(s.execute(req)),
+            };
+            out.push(resp_sexp(&resp, &worlds[0]));
+        }
+        "batch" => {
+            let AnySchema::Static(s) = &schema else { panic!("batch on a dynamic schema") };
+            let br = if requests.len() == 1 { BatchRequest::Single(requests.pop().unwrap()) } else { BatchRequest::Batch(requests) };
+            match spin_on(s.execute_batch(br)) {
+                BatchResponse::Single(r) => out.push(resp_sexp(&r, &worlds[0])),
+                BatchResponse::Batch(rs) => {
+                    for (r, w) in rs.iter().zip(&worlds) {
+                        out.push(resp_sexp(r, w));
+                    }
+                }
+            }
+        }
+        _ => {
+            let req = requests.pop().unwrap();
+            let mut st = match &schema {
+                AnySchema::Static(s) => s.execute_stream(req),
+                AnySchema::Dynamic(s) => s.execute_stream(req),
+            };
+            let mut n = 0;
+            while let Some(resp) = spin_on(st.next()) {
+                out.push(resp_sexp(&resp, &worlds[0]));
+                n += 1;
+                assert!(n < 64, "stream does not end");
+            }
+        }
+    }
+    (pqs, out)
+}
+
+fn run_forms(case: &Sexp, dist: &mut Dist) -> Sexp {
+    let a = case.args();
+    let n_ext = a[2].as_usize().unwrap();
+    let none: Trace = Arc::new(Mutex::new(vec![]));
+    let (pq0, r0) = run_forms_once(a, 0, &none);
+    let trace: Trace = Arc::new(Mutex::new(vec![]));
+    let (pq1, r1) = run_forms_once(a, n_ext, &trace);
+    assert!(pq0 == pq1, "parsed_query() is not deterministic");
+    if r0 != r1 {
+        dist.hit("response_differs_with_extensions");
+    }
+    let evs = std::mem::take(&mut *trace.lock().unwrap());
+    dist.add("trace_events", evs.len() as u64);
+    dist.add("responses", r1.len() as u64);
+    node("out", vec![node("pq", pq1), node("plain", r0), node("ext", r1), node("trace", evs)])
+}
+
 fn run(case: &Sexp, dist: &mut Dist) -> Sexp {
+    if case.tag() == Some("fcase") {
+        return run_forms(case, dist);
+    }
     let a = case.args();
     let n_ext = a[2].as_usize().unwrap();
     let none: Trace = Arc::new(Mutex::new(vec![]));
